@@ -4,6 +4,7 @@ import (
 	"encoding/hex"
 	"fmt"
 	"go/types"
+	"math/bits"
 	"regexp"
 	"sort"
 	"strconv"
@@ -609,6 +610,33 @@ func init() {
 			in.store(&PtrVal{Obj: sl.Obj, Path: []Sel{{Idx: sl.Off + k}}}, in.St.BV(uint64(x), 64))
 		}
 		return &TupleVal{}
+	}
+	for _, nm := range []string{"Len", "Len8", "Len16", "Len32", "Len64", "TrailingZeros", "TrailingZeros64", "OnesCount", "OnesCount64", "LeadingZeros", "LeadingZeros64"} {
+		nm := nm
+		natives["math/bits."+nm] = func(in *Interp, fn *ssa.Function, args []Value) Value {
+			v, ok := in.cUint(args[0])
+			if !ok {
+				panic(in.unsupported("math/bits." + nm + " on a symbolic value"))
+			}
+			var r int
+			switch nm {
+			case "Len", "Len64":
+				r = bits.Len64(v)
+			case "Len8":
+				r = bits.Len8(uint8(v))
+			case "Len16":
+				r = bits.Len16(uint16(v))
+			case "Len32":
+				r = bits.Len32(uint32(v))
+			case "TrailingZeros", "TrailingZeros64":
+				r = bits.TrailingZeros64(v)
+			case "OnesCount", "OnesCount64":
+				r = bits.OnesCount64(v)
+			case "LeadingZeros", "LeadingZeros64":
+				r = bits.LeadingZeros64(v)
+			}
+			return in.St.BV(uint64(r), 64)
+		}
 	}
 	natives["time.Now"] = func(in *Interp, fn *ssa.Function, args []Value) Value {
 		return in.zeroResults(fn.Signature)
